@@ -628,6 +628,34 @@ class Item:
         self._log('R13', 'for loop #%d in %s -> loop/next desugaring' % (ordinal, fn_name))
         return self
 
+    def r16(self, fn_name, ordinal, suffix=None, optional=False):
+        """`for x in &mut V { B }` -> counted `while` over V's indices with every `x.` written `V[k].`.
+        Sound because B can reach V only through x while the borrow lasts (so V's length is fixed); refused when x is used
+        other than as a receiver / field base."""
+        self._no_splice_yet()
+        if optional and ordinal >= len(self._loops(fn_name)):
+            return self
+        b, o, e = self._loop_span(fn_name, ordinal)
+        hdr = self.text[b:o]
+        m = re.match(r'(\s*)for (\w+) in &mut ([\w\.]+)\s*$', hdr, re.S)
+        if not m and optional:
+            return self
+        if not m:
+            raise ExtractError('%s: R16 loop #%d is not `for x in &mut V`: %s' % (self.name, ordinal, hdr.strip()))
+        ind, x, v = m.groups()
+        sfx = suffix if suffix is not None else str(ordinal)
+        n, k = '__n' + sfx, '__k' + sfx
+        body = self.text[o + 1:e - 1]
+        bad = [mm for mm in re.finditer(r'\b%s\b' % re.escape(x), body) if body[mm.end():mm.end() + 1] != '.']
+        if bad:
+            raise ExtractError('%s: R16 loop #%d uses `%s` other than as a receiver' % (self.name, ordinal, x))
+        body2 = re.sub(r'\b%s\b(?=\.)' % re.escape(x), '%s[%s]' % (v, k), body)
+        new_hdr = '%slet mut %s: usize = 0;\n%swhile %s < %s.len() ' % (ind, n, ind, n, v)
+        body_ins = '\n%s    let %s = %s;\n%s    %s += 1;' % (ind, k, n, ind, n)
+        self.text = self.text[:b] + new_hdr + '{' + body_ins + body2 + self.text[e - 1:]
+        self._log('R16', 'for-in-&mut loop #%d in %s -> counted while over %s (element written %s[%s])' % (ordinal, fn_name, v, v, k))
+        return self
+
     # ------------------------------------------------------------------ locating loops
     def _loops(self, fn_name):
         if fn_name:
@@ -727,9 +755,12 @@ class Item:
         return self
 
     def loop(self, ordinal, fn_name=None, invariant=None, invariant_except_break=None, ensures=None,
-             decreases=None, body_first=None, iter_name=None, body_last=None):
+             decreases=None, body_first=None, iter_name=None, body_last=None, optional=False):
         self._begin_splices()
         fn = fn_name or self.name
+        if optional and ordinal >= len(self._loops(fn)):
+            self._log('R7', 'loop #%d of %s not present; its (optional) annotations are not needed' % (ordinal, fn))
+            return self
         b, o, e = self._loop_span(fn, ordinal)
         ind = re.match(r'[ \t]*', self.text[b:o]).group(0)
         kindp = 'loop%d' % ordinal
